@@ -30,6 +30,9 @@ open DaeVerif.RuleScan
 def validDomainChar (c : Char) : Bool :=
   ('0' ≤ c && c ≤ '9') || ('a' ≤ c && c ≤ 'z') || c == '-' || c == '.' || c == '^' || c == '_'
 
+/-- `ahocorasick.IsValidChar`: the domain alphabet plus `$`. -/
+def validAcChar (c : Char) : Bool := validDomainChar c || c == '$'
+
 /-- `strings.TrimSuffix(s, ".")`: at most ONE trailing dot is removed. -/
 def trimDot (s : List Char) : List Char :=
   match s.getLast? with
@@ -52,7 +55,9 @@ def isInfixB (p : List Char) : List Char → Bool
 
 /-- One pattern against the normalised name `n`.  `rx` lists the regex patterns that match `n`
 (oracle: Go's `regexp`).  `full`/`suffix` patterns containing a character outside
-`ValidDomainChars` are skipped by `AddSet` (with a warning), i.e. never match.
+`ValidDomainChars` — and, since the C11 `fix:`, `keyword` patterns with a character outside the
+Aho-Corasick alphabet — are skipped by `AddSet` (with a warning), i.e. never match; the
+Aho-Corasick library never reports the empty keyword.
 suffix `d`: `n = d` or `n` ends with `"." ++ d`; a pattern starting with `.` only matches proper
 sub-domains.  keyword: substring of `"^" ++ n ++ "$"`. -/
 def patMatch (rx : List String) (key : DKey) (pat : String) (n : List Char) : Bool :=
@@ -62,7 +67,7 @@ def patMatch (rx : List String) (key : DKey) (pat : String) (n : List Char) : Bo
   | .suffix =>
     p.all validDomainChar &&
       (if p.head? == some '.' then p.isSuffixOf n else (n == p || ('.' :: p).isSuffixOf n))
-  | .keyword => isInfixB p ('^' :: (n ++ ['$']))
+  | .keyword => p.all validAcChar && !p.isEmpty && isInfixB p ('^' :: (n ++ ['$']))
   | .regex => rx.contains pat
 
 def domSetMatch (rx : List String) (key : DKey) (pats : List String) (n : List Char) : Bool :=
